@@ -177,6 +177,15 @@ static void run_cmd (const Cmd *cm) {
 		else if (!strcmp (cm->sarg, "backlog")) p_socket_set_listen_backlog (sk[h], cm->a);
 		ok = 1;
 	} else if (!strcmp (op, "shutdown")) ok = p_socket_shutdown (sk[h], cm->a ? TRUE : FALSE, cm->b ? TRUE : FALSE, &err);
+	else if (!strcmp (op, "ccr")) ok = p_socket_check_connect_result (sk[h], &err);
+	else if (!strcmp (op, "iowait")) ok = p_socket_io_condition_wait (sk[h], cm->a == 2 ? P_SOCKET_IO_CONDITION_POLLOUT : P_SOCKET_IO_CONDITION_POLLIN, &err);
+	else if (!strcmp (op, "bufsize")) ok = p_socket_set_buffer_size (sk[h], cm->a ? P_SOCKET_DIRECTION_RCV : P_SOCKET_DIRECTION_SND, (psize) cm->b, &err);
+	else if (!strcmp (op, "addrs")) {        /* id = 1 iff the local address is the loopback address with the socket's own port; from = owner of the remote port */
+		PSocketAddress *la = p_socket_get_local_address (sk[h], NULL), *ra = p_socket_get_remote_address (sk[h], NULL); pchar *as;
+		ok = 1; id = 0; from = 0;
+		if (la) { as = p_socket_address_get_address (la); id = (as && !strcmp (as, sfam[h] == 6 ? "::1" : "127.0.0.1") && (sport[h] <= 0 || p_socket_address_get_port (la) == sport[h])) ? 1 : 0; p_free (as); p_socket_address_free (la); }
+		if (ra) { as = p_socket_address_get_address (ra); from = port_owner (p_socket_address_get_port (ra)); if (!as || strcmp (as, sfam[h] == 6 ? "::1" : "127.0.0.1")) from = -1; p_free (as); p_socket_address_free (ra); }
+	}
 	else if (!strcmp (op, "close")) ok = p_socket_close (sk[h], &err);
 	else if (!strcmp (op, "getters")) ok = 1;
 	else if (!strcmp (op, "free")) { p_socket_free (sk[h]); sk[h] = NULL; ok = 1; }
